@@ -76,6 +76,7 @@ def random_script(rng, level, n, beyond=False, g=None):
                         lost0=rng.choice([0, 0, 0xFFFFFF - 40, 0xFFFFFF - 3, 0xFFFFFF]) if level == "stream" else 0))
     p_loss = rng.choice([0.0, 0.02, 0.1, 0.3])
     p_report = rng.choice([0.02, 0.05, 0.2])
+    sr_floor = [0]                 # the arrival clock (ReceiverNow) may be stepped back, but not behind the newest sender report
 
     def report():
         steps.append(ev("report", t=now))
@@ -98,6 +99,10 @@ def random_script(rng, level, n, beyond=False, g=None):
 
     for _ in range(n):
         now += rng.choice([0, 0, g, g, 2 * g, 3 * g, 30, 40] + ([1000, 2500] if rng.random() < 0.2 else []))
+        if rng.random() < 0.04:    # the clock is stepped back between two packets (RFC 3550 A.8 takes the SIGNED arrival difference)
+            now = max(sr_floor[0], now - rng.choice([g, 3 * g, 20 * g, 500, 2000]))
+            now -= now % g
+            now = max(now, sr_floor[0])
         idle = [st for st in streams.values() if st.arr is not None and now - st.arr >= 9000]
         st = idle[0] if idle else streams[rng.choice([1, 1, 1, 2, 2, 3])]
         r = rng.random()
@@ -152,6 +157,7 @@ def random_script(rng, level, n, beyond=False, g=None):
             s = rng.choice([1, 1, 2, 3, 9])                               # 9 is never bound
             steps.append(ev("sr", s=s, t=now, ntp=[rng.randrange(65536) for _ in range(4)] if rng.random() < 0.7
                             else rng.choice(NTP_POOL), cmp=rng.choice([0, 0, 1, 2])))
+            sr_floor[0] = now
         elif r < 0.985:
             report()
             if rng.random() < 0.7:
